@@ -239,20 +239,18 @@ def execute_cancel(op: dict) -> tuple:
 
 
 def mutate_tree(tree: ast.AST) -> None:
-    """What a caller may legally do to a tree it was handed."""
+    """What a caller may legally do to a tree it was handed — applied to *every* node of that tree, so that
+    any node object it shares with another call's tree (or with a later parse) becomes visible: line numbers
+    are shifted, every string and integer field is changed and every list field gets an extra element."""
     ast.increment_lineno(tree, 7)
-    for node in ast.walk(tree):
-        if isinstance(node, ast.Name):
-            node.id = node.id + "_m"
-        elif isinstance(node, ast.Constant) and isinstance(node.value, str):
-            node.value = node.value + "_m"
-        elif isinstance(node, ast.Constant) and isinstance(node.value, int) and not isinstance(node.value, bool):
-            node.value = node.value + 1000
-        elif isinstance(node, ast.Attribute):
-            node.attr = node.attr + "_m"
-    body = getattr(tree, "body", None)
-    if isinstance(body, list) and len(body) > 1:
-        body.pop()
+    for node in list(ast.walk(tree)):
+        for name, value in list(ast.iter_fields(node)):
+            if isinstance(value, list):
+                value.append(ast.Constant(value="__vsim_caller_edit__"))
+            elif isinstance(value, str):
+                setattr(node, name, value + "_m")
+            elif isinstance(value, int) and not isinstance(value, bool):
+                setattr(node, name, value + 1000)
 
 
 FAULT_EXC = {"KeyboardInterrupt": KeyboardInterrupt, "MemoryError": MemoryError}
